@@ -25,6 +25,10 @@ pub struct VerifTimer {
     pub hard_cap: Option<u64>,
     /// number of should_stop() calls since start()
     pub polls: std::cell::Cell<u64>,
+    /// node count at which the deadline (nodes, polls or wall clock) was first seen to have passed
+    pub expired_at: std::cell::Cell<Option<u64>>,
+    /// increment_nodes() panics once more than this many nodes are counted after the deadline
+    pub overrun_cap: Option<u64>,
 }
 
 impl SearchTimer {
@@ -49,6 +53,8 @@ impl SearchTimer {
         self.nodes_searched = 0;
         #[cfg(flounder_verif)]
         self.verif.polls.set(0);
+        #[cfg(flounder_verif)]
+        self.verif.expired_at.set(None);
     }
 
     /// Resets the timer without changing the time limit
@@ -66,6 +72,30 @@ impl SearchTimer {
         if let Some(cap) = self.verif.hard_cap {
             if self.nodes_searched > cap {
                 panic!("flounder_verif: hard node cap {} exceeded", cap);
+            }
+        }
+        #[cfg(flounder_verif)]
+        self.verif_note_expiry();
+    }
+
+    /// Verification hook: remember the node count at which the deadline passed and
+    /// turn a search that keeps expanding nodes long after it into a panic
+    #[cfg(flounder_verif)]
+    fn verif_note_expiry(&self) {
+        match self.verif.expired_at.get() {
+            None => {
+                let by_nodes = self.verif.node_limit.is_some_and(|l| self.nodes_searched >= l);
+                let by_clock = matches!((self.start_time, self.time_limit), (Some(s), Some(l)) if s.elapsed() >= l);
+                if by_nodes || by_clock {
+                    self.verif.expired_at.set(Some(self.nodes_searched));
+                }
+            }
+            Some(at) => {
+                if let Some(cap) = self.verif.overrun_cap {
+                    if self.nodes_searched > at + cap {
+                        panic!("flounder_verif: more than {} nodes expanded after the deadline", cap);
+                    }
+                }
             }
         }
     }
@@ -92,6 +122,9 @@ impl SearchTimer {
             if self.verif.node_limit.is_some_and(|l| self.nodes_searched >= l)
                 || self.verif.poll_limit.is_some_and(|l| polls >= l)
             {
+                if self.verif.expired_at.get().is_none() {
+                    self.verif.expired_at.set(Some(self.nodes_searched));
+                }
                 return true;
             }
         }
